@@ -266,21 +266,33 @@ def rejecting_environment(ctx, r, quick):
             body = ['IGNORE secret', 'DATA a 2 SHA1 3f786850e387550fdab836ed7e6dc881de23001b'][:r.randint(1, 2)]
             t = seq_text([BEGIN, 'Hash: SHA256', ''] + body + [SIGBEGIN, '', 'iQEzBAEBCgAdFiEE', '=BR6/', END], True)
             open(os.path.join(tree, 'Manifest'), 'w').write(t)
-            how = r.choice(['loader', 'loader-update', 'loader-create', 'loader-create', 'cli-verify', 'cli-update', 'cli-create', 'cli-create'])
+            how = r.choice(['loader', 'loader-update', 'loader-create', 'loader-create', 'cli-verify', 'cli-update', 'cli-create', 'cli-create',
+                            'sub-loader-update', 'sub-cli-update', 'sub-cli-create'])
+            if how.startswith('sub-'):
+                # ... the same for a signed Manifest in a sub-directory that nothing references yet: update / create find it and must not adopt it
+                os.makedirs(os.path.join(tree, 'sub'))
+                open(os.path.join(tree, 'sub', 'b'), 'w').write('b\n')
+                open(os.path.join(tree, 'sub', 'Manifest'), 'w').write(t.replace('IGNORE secret', 'IGNORE b').replace('DATA a 2', 'DATA zz 2'))
+                open(os.path.join(tree, 'Manifest'), 'w').write('')
+                how = how[4:] + '+unregistered-signed-sub-Manifest'
+
             n += 1
             ok = None
             try:
                 if how.startswith('loader'):
                     Rejecting.calls = 0
-                    kw = {'loader': {}, 'loader-update': {'hashes': ['SHA1']}, 'loader-create': {'hashes': ['SHA1'], 'allow_create': True}}[how]
+                    kw = {'loader': {}, 'loader-update': {'hashes': ['SHA1']}, 'loader-create': {'hashes': ['SHA1'], 'allow_create': True}}[how.split('+')[0]]
                     try:
                         m = rl.ManifestRecursiveLoader(os.path.join(tree, 'Manifest'), openpgp_env=Rejecting(), **kw)
+                        if '+' in how:
+                            m.update_entries_for_directory('')
+                            m.save_manifests()
                         ok = f'constructed, {len(m.loaded_manifests["Manifest"].entries)} entries handed out, verify_file called {Rejecting.calls} times'
                     except ge.GematoException:
                         ok = None
                 else:
                     os.environ['GNUPGHOME'] = os.path.join(d, 'home')
-                    argv = {'cli-verify': ['verify'], 'cli-update': ['update', '-H', 'SHA1'], 'cli-create': ['create', '-H', 'SHA1']}[how]
+                    argv = {'cli-verify': ['verify'], 'cli-update': ['update', '-H', 'SHA1'], 'cli-create': ['create', '-H', 'SHA1']}[how.split('+')[0]]
                     rc, items = PT.run_cli_collect(['gemato'] + argv + [tree])
                     if rc == 0:
                         ok = f'exit 0; Manifest now: {open(os.path.join(tree, "Manifest")).read()[:200]!r}'
